@@ -1,7 +1,7 @@
 (* C17 — Every reply is well-formed, and RESP and JSON outputs agree.
    This file holds only the property theorems, each closed by a lemma of Proofs/. *)
 From T38 Require Import Base.Bytes Base.Utf8 Model.Json Model.Templates
-  Model.WsFrame Proofs.JsonProofs Proofs.JsonTmplProofs Proofs.JsonGenProofs Proofs.JsonWsProofs.
+  Model.WsFrame Model.RespOut Model.JsonScan Proofs.JsonScanProofs Proofs.JsonRespProofs Proofs.JsonProofs Proofs.JsonTmplProofs Proofs.JsonGenProofs Proofs.JsonWsProofs.
 From T38 Require Gen.Templates.
 
 (* jsonString / appendJSONString (fast path and Go's json.Marshal escaping: control bytes, quote,
@@ -59,6 +59,23 @@ Theorem frag_ok_sound_partial : forall t,
 Proof. exact frag_ok_sound_proof. Qed.
 Print Assumptions frag_ok_sound_partial.
 
+(* Whole-document validity of the scanWriter replies (SCAN / SEARCH / NEARBY / WITHIN /
+   INTERSECTS): the four templates assembled from the extracted fragments in the order in which
+   the handler, writeFoot and writeFilled emit them (the order grammar is written by hand in
+   harness/internal/tmplx scanGrammar; the harness checks that every real reply of these commands
+   is an instance of its template) are accepted, hence every instance is one valid JSON document
+   starting with {"ok":true.  This supersedes the fragment-wise statement for validity. *)
+Theorem c17_scan_templates :
+  length Gen.Templates.scan_templates = 4%nat /\ forallb tmpl_ok Gen.Templates.scan_templates = true.
+Proof. exact (conj scan_templates_present all_scan_templates_ok). Qed.
+Print Assumptions c17_scan_templates.
+
+Theorem c17_scan_replies_valid : forall t v,
+  In t Gen.Templates.scan_templates -> inst t v ->
+  valid_json v = true /\ (hasPrefix ok_true_prefix v \/ hasPrefix ok_false_prefix v).
+Proof. exact all_scan_replies_valid. Qed.
+Print Assumptions c17_scan_replies_valid.
+
 (* F7 (repaired): the template of OUTPUT before the repair is rejected, with an invalid instance. *)
 Theorem c17_output_before_fix_refuted :
   tmpl_ok output_template_before_fix = false /\
@@ -93,6 +110,65 @@ Theorem c17_ws_header_off_by_one_refuted :
   exists p, ws_decode (ws_header_126 (N.of_nat (length p)) ++ p) <> Some p.
 Proof. exact ws_header_126_refuted. Qed.
 Print Assumptions c17_ws_header_off_by_one_refuted.
+
+(* RESP mode: the printer of every RESP-mode reply (resp.Value.MarshalRESP transcribed: simple
+   strings, errors, integers, bulk strings, null bulk, null array, arrays, nested) is inverted by a
+   strict RESP2 parser: a client recovers exactly the value printed and nothing is left over.
+   Well-formed = simple strings and errors contain no CR / LF.  tile38 guarantees that: every
+   error reply goes through resp.ErrorValue and every simple string through
+   resp.SimpleStringValue, both of which apply formSingleLine (c17_resp_single_line); the raw
+   writes (+PONG, +OK, -ERR wrong number of arguments for 'cmd' command) are fixed literals around a
+   dispatched command name. *)
+Theorem c17_resp_valid : forall v, resp_wf v = true -> resp_parse (resp_print v) = Some (v, []).
+Proof. exact resp_valid_proof. Qed.
+Print Assumptions c17_resp_valid.
+
+(* ... also in the middle of a stream (pipelined replies do not run into each other) *)
+Theorem c17_resp_valid_stream : forall v, resp_wf v = true -> forall rest,
+  resp_parse_fuel (S (length (resp_print v ++ rest))) (resp_print v ++ rest) = Some (v, rest).
+Proof. exact resp_roundtrip_proof. Qed.
+Print Assumptions c17_resp_valid_stream.
+
+Theorem c17_resp_single_line : forall s, line_ok (form_single_line s) = true.
+Proof. exact form_single_line_ok. Qed.
+Print Assumptions c17_resp_single_line.
+
+(* the hypothesis is needed: a simple string carrying CR LF does not come back *)
+Theorem c17_resp_crlf_refuted :
+  resp_parse (resp_print (RSimple [79; 75; 13; 10; 43; 88])) <> Some (RSimple [79; 75; 13; 10; 43; 88], []).
+Proof. exact crlf_in_simple_refuted. Qed.
+Print Assumptions c17_resp_crlf_refuted.
+
+(* The two modes convey the same result, for the scanWriter commands (SCAN / SEARCH / NEARBY /
+   WITHIN / INTERSECTS) with the outputs IDS, COUNT and OBJECTS: the JSON arm and the RESP arm of
+   writeFoot / writeFilled, transcribed as render_json / render_resp over one abstract result (ids,
+   objects and field values as printed values, field-name list, distances, count, cursor), are
+   projected by a client onto the same abstract reply: ids, objects, non-zero fields, distances,
+   cursor (count for COUNT).  Hypothesis wf_res: the name list has no duplicates and every
+   object's field list is a sub-list of it (field.List and the fkeys B-tree set are both in byte
+   order of the names). *)
+Theorem c17_modes_agree : forall r, wf_res r ->
+  proj_json (sr_out r) (render_json r) = Some (abs_of r) /\
+  proj_resp (sr_out r) (render_resp r) = Some (abs_of r).
+Proof. exact modes_agree_proof. Qed.
+Print Assumptions c17_modes_agree.
+
+(* the distance-0 case, explicitly: NEARBY .. DISTANCE of an object at the query point prints
+   "distance":0 / the bulk 0 (opts.distOutput makes the test true although dist > 0 is false) *)
+Theorem c17_zero_distance_kept :
+  wf_res zero_dist_result /\
+  abs_of zero_dist_result = AList 0 [ {| a_id := [97]; a_obj := None; a_fields := []; a_dist := Some [48] |} ] /\
+  proj_json OIds (render_json zero_dist_result) = Some (abs_of zero_dist_result) /\
+  proj_resp OIds (render_resp zero_dist_result) = Some (abs_of zero_dist_result).
+Proof. exact zero_distance_kept. Qed.
+Print Assumptions c17_zero_distance_kept.
+
+(* ... and the variant whose JSON ids arm tests dist > 0 only (seeded change C17/2) makes the two
+   modes disagree on that very result *)
+Theorem c17_drop_zero_distance_refuted :
+  exists r, wf_res r /\ proj_json (sr_out r) (render_json_dropzero r) <> proj_resp (sr_out r) (render_resp r).
+Proof. exact dropzero_refuted. Qed.
+Print Assumptions c17_drop_zero_distance_refuted.
 
 (* non-vacuity: hole fills exist (a string needing every kind of escape, an integer, a boolean),
    and the regenerated list is not empty *)
